@@ -158,14 +158,19 @@ def binary_cases(draw, tier):
     S = draw(G.alphabets(0 if draw(st.integers(0, 9)) == 0 else 1, 2))
     overlap = draw(st.booleans())
     lo = 1 if draw(st.integers(0, 9)) == 0 else 2
-    d1 = draw(G.dfa_specs(min_states=lo, max_states=4, sigma=S, pool=G.POOL[:10]))
-    d2 = draw(G.dfa_specs(min_states=lo, max_states=4, sigma=S, pool=G.POOL[:10] if overlap else G.POOL[10:22]))
+    if draw(st.integers(0, 4)) == 0:
+        # names joined by '_': the pairs (s, t_u) and (s_t, u) spell the same text when the components are joined
+        d1 = draw(G.dfa_specs(min_states=lo, max_states=4, sigma=S, pool=["s", "s_t", "s_t_u", "t"]))
+        d2 = draw(G.dfa_specs(min_states=lo, max_states=4, sigma=S, pool=["u", "t_u", "u_v", "t_u_v"]))
+    else:
+        d1 = draw(G.dfa_specs(min_states=lo, max_states=4, sigma=S, pool=G.POOL[:10]))
+        d2 = draw(G.dfa_specs(min_states=lo, max_states=4, sigma=S, pool=G.POOL[:10] if overlap else G.POOL[10:22]))
     return {"d1": d1, "d2": d2, "op": draw(st.sampled_from(["union", "intersection", "symmetric_difference"])), "logging": draw(st.integers(0, 5)) == 0}
 
 
 @st.composite
 def unary_cases(draw, tier):
-    return {"dfa": draw(G.dfa_specs(max_states=5, max_sigma=2)),
+    return {"dfa": draw(G.routes_dfa_specs()) if draw(st.integers(0, 7)) == 0 else draw(G.dfa_specs(max_states=5, max_sigma=2)),
             "op": draw(st.sampled_from(["complement", "reverse", "no_prefix", "no_extend", "remove_unreachable"]))}
 
 
@@ -180,6 +185,9 @@ def total_cases(draw, tier):
 @st.composite
 def lang_cases(draw, tier):
     S = draw(G.alphabets(1, 3, syms=["a", "b", "c"]))
+    if draw(st.integers(0, 7)) == 0:
+        # the helpers work on arbitrary strings: characters at the top of the BMP and beyond it
+        S = draw(st.sampled_from([["a", "\U0001d44e"], ["\uffff", "a"], ["\U0010ffff", "b"], ["\ufffe", "\uffff", "\U00010000"]]))
     w = st.text(alphabet=S, max_size=5)
     L1 = draw(st.lists(w, max_size=8, unique=True))
     # bias: add prefixes / reversals / extensions of members
